@@ -281,8 +281,10 @@ CONC_E1 = ["counter_pulls", "counter_3t", "ticket_pulls", "ticket_3t"]
 
 PLANS = {
     "C01": dict(e1=CONC_E1 + ["counter_comp", "ticket_comp"], inv=["Inv_C01"], bundles=["core", "large"]),
-    "C02": dict(e1=CONC_E1 + ["counter_comp", "ticket_comp"], inv=["Inv_C02", "Inv_TicketIsPosition"], bundles=["core", "large"]),
-    "C03": dict(e1=CONC_E1 + ["ticket_owner"], inv=["Inv_C03"], bundles=["core", "large"], zst=True),
+    "C02": dict(e1=CONC_E1 + ["counter_comp", "ticket_comp"], inv=["Inv_C02", "Inv_TicketIsPosition"], bundles=["core", "large", "boundary"],
+                flags=["Index", "Value", "IndexB"]),
+    "C03": dict(e1=CONC_E1 + ["ticket_owner"], inv=["Inv_C03"], bundles=["core", "large", "boundary"], zst=True,
+                flags=["ChunkEmpty", "ChunkTooLong", "ChunkShort", "ChunkLen", "ChunkShape", "OutOfRange", "ChunkB"]),
     "C04": dict(e1=CONC_E1 + ["counter_skipq"], inv=["Inv_C04"], bundles=["core", "large"]),
     "C05": dict(e1=CONC_E1 + ["counter_skipq", "ticket_skip", "ticket_query", "ticket_revive"], inv=["Inv_C05", "Inv_NoWrap"], bundles=["core", "panic", "boundary"], revive=True,
                 flags=["EndSticks", "LenAfterEnd", "EndSticksB"]),
